@@ -24,7 +24,7 @@ import numpy as np
 import blackbird as bb
 import strawberryfields.io as sfio
 
-from blackbird.utils import match_template, TemplateError
+from blackbird.utils import match_template, to_DiGraph, TemplateError
 from .parameters import MeasuredParameter, par_evaluate
 
 
@@ -543,6 +543,25 @@ def validate_gate_parameters(compiled, device=None):
         raise CircuitError(
             "Program cannot be matched with the device layout due to incompatible topology."
         ) from e
+
+    # ``match_template`` only extracts the template parameters; the arguments
+    # that the layout hard-codes must have the same values in the program
+    def node_match(n1, n2):
+        """Returns True if both nodes have the same name, modes and hard-coded arguments"""
+        if n1["name"] != n2["name"] or n1["modes"] != n2["modes"]:
+            return False
+        for x, y in zip(n1["args"], n2["args"]):
+            if isinstance(x, (int, float)) and isinstance(y, (int, float)) and not np.isclose(x, y):
+                return False
+        return True
+
+    GM = nx.algorithms.isomorphism.DiGraphMatcher(
+        to_DiGraph(bb_device), to_DiGraph(compiled), node_match
+    )
+    if not GM.is_isomorphic():
+        raise CircuitError(
+            "Program cannot be matched with the device layout due to incompatible parameter values."
+        )
 
     # raises ValueError if parameters are invalid
     device.validate_parameters(**user_parameters)
